@@ -125,6 +125,33 @@ def corr(ctx):
                     gauss_case(ch, x, seed0 + case, "channels:AWGNChannel.history", {"P": P, "dtype": str(dt), "order": ["complex" if c else "real" for c in order], "call": step}, P,
                                tol=2e-6 if dt == torch.float64 else 2e-5)   # float32 signal: the sum x + n is rounded to float32
                 ctx.count("awgn_object_histories")
+    # ---- a channel re-configured by attribute assignment after it has been used (parameter sweeps on one object): the next call must
+    #      deliver the NEW noise power / scale
+    for P1, P2 in ((0.1, 0.4), (37.0, 1e-2)):
+        for cplx in (False, True):
+            ch = AWGNChannel(avg_noise_power=P1)
+            case += 1
+            gauss_case(ch, signal((2, 8), cplx, 1.0), seed0 + case, "channels:AWGNChannel.history", {"P": P1, "reassigned": False, "complex": cplx}, P1)
+            ch.avg_noise_power = P2
+            case += 1
+            gauss_case(ch, signal((2, 8), cplx, 1.0), seed0 + case, "channels:AWGNChannel.history", {"P": P2, "reassigned": "avg_noise_power %g -> %g" % (P1, P2), "complex": cplx}, P2)
+            # Laplacian scale
+            lp = LaplacianChannel(scale=math.sqrt(P1 / 2))
+            x = signal((2, 8), cplx, 1.0)
+            lp(x)
+            lp.scale = math.sqrt(P2 / 2)
+            case += 1
+            s_ = seed0 + case
+            torch.manual_seed(s_); y = lp(x)
+            n_ = y - x
+            torch.manual_seed(s_)
+            if cplx:
+                z = torch.cat([lp._get_laplacian_noise(x.real.shape, x.device).flatten(), lp._get_laplacian_noise(x.imag.shape, x.device).flatten()]).double(); nn = torch.cat([n_.real.flatten(), n_.imag.flatten()])
+            else:
+                z = lp._get_laplacian_noise(x.shape, x.device).flatten().double(); nn = n_.flatten()
+            add("lapScaleComplex" if cplx else "lapScaleReal", math.sqrt(P2 / 2), z.tolist(), nn.tolist(), "channels:LaplacianChannel", {"scale": math.sqrt(P2 / 2), "reassigned": "scale after first use", "complex": cplx, "mode": "scale"},
+                bool((torch.sign(nn) == torch.sign(z)).all()), tol=5e-6)
+            ctx.count("reassigned_parameter_cases", 2)
     # ---- SNR mode: integer decades are exact in the model (snrp), others through the float64 formula (test)
     for snr in [-20, -10, 0, 10, 20, 30, 40] + [rng.uniform(-20, 40) for _ in range(6)]:
         for cplx in (False, True):
